@@ -69,6 +69,10 @@ def reset_initial_conditions(
     InitCond.day_submerged = 0
     InitCond.irr_net_cum = 0
     InitCond.dap = 0
+    # evaporation / transpiration demand of the last simulated day (read by the
+    # irrigation decision of the first day of the new season)
+    InitCond.e_pot = 0
+    InitCond.t_pot = 0
 
     InitCond.aer_days_comp = np.zeros(int(Soil.nComp))
 
